@@ -80,7 +80,7 @@ def real_lex_value(dname, text):
 
 
 # ------------------------------------------------------------------ denotation specs (from the property statement)
-def den_quoted(delim, doubling, backslash):
+def den_quoted(delim, doubling, backslash, keep_pairs=False):
     """what a quoted literal denotes: delimiters removed; (doubling) doubled delimiter -> one; (backslash) backslash followed
     by a quote character or a backslash -> that character; every other character denotes itself.  Backslash followed by any
     other character is outside the domain (the statement is silent on it)."""
@@ -98,7 +98,8 @@ def den_quoted(delim, doubling, backslash):
             t.add(body, ch, ch, body)
     if backslash:
         for ch in (Q, DQ, BS):
-            t.add(esc, ch, ch, body)
+            # keep_pairs: the documented deviation of the mindsdb decoder (a doubled backslash stays a pair) - used to pin everything ELSE in the backslash region
+            t.add(esc, ch, (BS + BS) if (keep_pairs and ch == BS) else ch, body)
     if doubling:
         t.add(closed, delim, delim, body)
     t.finals[closed] = ['']
